@@ -1,5 +1,5 @@
 //! Dictionary of "interesting" integers mined from the source under test: every integer literal in
-//! /repo/src/*.rs (decimal or hex, underscores allowed, simple `a << b` shifts), each with its
+//! /repo/src/*.rs (decimal or hex, underscores allowed, simple `a << b` shifts and `a * b` products), each with its
 //! neighbours +-1. The generators mix these into lengths, positions, chunk sizes, write sizes and
 //! file sizes, so that a threshold introduced by a change (512, 32, 1 << 32, ...) is hit on
 //! purpose rather than by luck. The same tree always yields the same dictionary.
@@ -51,6 +51,12 @@ fn scan(text: &str, out: &mut BTreeSet<u64>) {
                     let between = text[end..start].trim();
                     if between == "<<" && v < 64 {
                         if let Some(s) = a.checked_shl(v as u32) {
+                            out.insert(s);
+                        }
+                    }
+                    // `a * b` (16 * 1024, ...)
+                    if between == "*" {
+                        if let Some(s) = a.checked_mul(v) {
                             out.insert(s);
                         }
                     }
